@@ -5,7 +5,8 @@ Model: RpylibModel/Model/Cells.lean (+ Model/Grid.lean for `refine`).  Helper le
 Quantification: every axis (`AxisOK`: strictly increasing, the value 0 at an interior index `o`), every cell-boundary
 function `mid` strictly inside its gap (`Between`) with `mid a a = a` (`MidIdem`; the clamped ends), every interval
 mass `m` that is additive and non-negative on intervals strictly on one side of 0 (`IsMass`), every rectangle mass that
-is additive under splits at points ≠ 0 and non-negative on rectangles away from the origin (`IsBoxMass2/3`).
+is additive under splits at points ≠ 0 and non-negative on rectangles away from the origin (`IsBoxMass2/3`).  The axes
+of an n-d grid may have different lengths (per-axis clamp of `right_point` since /repo 56f1018).
 -/
 import RpylibModel.Proofs.Lemmas.C01Basic
 import Mathlib.Algebra.BigOperators.Field
@@ -836,13 +837,24 @@ example : intensityNd amid [[-1, 0, 1], [-1, 0, 1]] 1 (box2 (fun a c y z => (c -
   simp [intensityNd, blocks, cartesian, parts, len0, box2, hLeft, hRight, leftPoint, rightPointN, pt, amid]
   norm_num
 
-/-- negation witness for the n-d clamp (spatial.py:93): with axes of unequal length (same origin index) the second
-    axis is clamped with the first axis' length, and its state with coordinate 3 lies *outside* its own cell
-    (replayed on the implementation by probe `c01.nd.unequal_axes`) -/
+/-- negation witness for the n-d clamp as it was *before* /repo 56f1018 (`cellHiOld`: every axis clamped with
+    `len(axes[0])`): with axes of unequal length the state with coordinate 3 of the longer axis lay *outside* its own
+    cell; with the per-axis clamp of the code as it is now (`cellHi`) it lies inside, as `state_in_cell` says.
+    Probe `c01.nd.unequal_axes` checks the implementation on such grids. -/
 theorem unequal_axes_break_cells :
-    cellHiN amid (len0 [[-1, 0, 1], [-1, 0, 1, 2, 3]]) [-1, 0, 1, 2, 3] 3 < pt [-1, 0, 1, 2, 3] 3 := by
-  simp [cellHiN, rightPointN, len0, pt, amid]
-  norm_num
+    cellHiOld amid [[-1, 0, 1], [-1, 0, 1, 2, 3]] [-1, 0, 1, 2, 3] 3 < pt [-1, 0, 1, 2, 3] 3 ∧
+    pt [-1, 0, 1, 2, 3] 3 < cellHi amid [-1, 0, 1, 2, 3] 3 := by
+  constructor
+  · simp [cellHiOld, cellHiN, rightPointN, pt, amid]; norm_num
+  · simp [cellHi, cellHiN, rightPointN, pt, amid]; norm_num
+
+/-- concrete run on a grid with axes of unequal length (3 × 5 points): the 14 non-origin cells of the unit-density
+    measure add up to the 8 blocks -/
+example : (qTensor amid [[-1, 0, 1], [-1, 0, 1, 2, 4]] 1 (box2 (fun a c y z => (c - a) * (z - y)))).sum =
+    intensityNd amid [[-1, 0, 1], [-1, 0, 1, 2, 4]] 1 (box2 (fun a c y z => (c - a) * (z - y))) :=
+  qTensor_sum_eq_intensity_2d amid amid_between amid_idem _ _ 1
+    ⟨by simp [StrictInc] <;> norm_num, by norm_num, by simp, by simp [pt]⟩
+    ⟨by simp [StrictInc] <;> norm_num, by norm_num, by simp, by simp [pt]⟩ _ lebesgue_isBoxMass2
 
 /-- negation witness for `MidIdem`: a cell-boundary function strictly inside every gap but with `mid a a ≠ a`
     moves the first cell's lower end off the truncation bound -/
